@@ -48,7 +48,8 @@ structure Cluster where
   /-- when set, a partition answered with an injected error still carries its data (hostile but well-formed) -/
   dataWithError : Bool := true
   /-- brokers that answer a fetch with a well-formed reply of an unusual shape: 1 = no topics at all,
-      2 = every asked topic listed without partitions (nothing in the protocol forbids either) -/
+      2 = every asked topic listed without partitions, 3 = what was asked plus every other partition of the asked topics
+      that this broker leads, with an empty set and its high watermark (nothing in the protocol forbids any of these) -/
   fetchShape : List (Int × Nat) := []
 deriving Repr
 
@@ -169,7 +170,15 @@ def handleFetch (c : Cluster) (node : Int) (topics : List (Bytes × List FetchPa
           match fault with
           | some code => (c, ⟨fp.partition, code, ps.hw, if c.dataWithError then data else []⟩)
           | none => (c, ⟨fp.partition, 0, ps.hw, data⟩)
-    (c, (t, rs))
+    -- shape 3: the broker volunteers the other partitions it leads of the asked topics
+    let extra : List FetchPartResp :=
+      if (c.fetchShape.find? (·.1 == node)).map (·.2) == some 3 then
+        match c.topic? t with
+        | some tstate => ((List.range tstate.parts.length).zip tstate.parts).filterMap fun (i, pst) =>
+            if pst.leader == node && !(ps.any fun fp => fp.partition == (i : Int)) then some ⟨(i : Int), 0, pst.hw, []⟩ else none
+        | none => []
+      else []
+    (c, (t, rs ++ extra))
   (c, .fetch ts)
 
 def handleOffsets (c : Cluster) (node : Int) (v1 : Bool) (topics : List (Bytes × List OffsetPart)) : Cluster × RespBody :=
@@ -203,6 +212,8 @@ def handleProduce (c : Cluster) (node : Int) (topics : List (Bytes × List (Int 
             match countMsgs set with
             | none => (c, (p, 2, -1))
             | some n =>
+              -- a log cannot grow past the largest offset a reply can state: such an append is refused
+              if ps.hw + ps.produced + n > 9223372036854775807 then (c, (p, 2, -1)) else
               (c.modPart t p.toNat (fun ps => { ps with produced := ps.produced + n }), (p, 0, ps.hw + ps.produced))
     (c, (t, rs))
   (c, .produce ts)
